@@ -716,12 +716,16 @@ func (g *c07reg) lit(v *cval, dvar string, depth int) string {
 			if dep {
 				s += " + " + dvar
 			}
-			return "host.E{Code: " + s + "}"
+			// conversion form: an interface variable assigned a struct literal directly changes its slot type in yaegi
+			return "error(host.E{Code: " + s + "})"
 		}
 		return "&host.PE{Msg: " + strconv.Quote(v.S) + "}"
 	case ckAny:
 		if v.Nil {
 			return "nil"
+		}
+		if v.Dyn.T.K == ckStruct {
+			return "interface{}(" + g.lit(v.Dyn, dvar, depth) + ")"
 		}
 		return g.lit(v.Dyn, dvar, depth)
 	case ckFunc:
